@@ -26,7 +26,8 @@ RULE = ("per codec configuration and base buffer: (0 deviations) the valid "
         "(wider bits, tables after values, shared tables, padding words, "
         "reversed channel order, unsorted tables) must decode correctly; (1 "
         "deviation) every truncation length, every byte position x byte "
-        "alphabet (14 values quick / all 256 thorough), every header word "
+        "alphabet (13 values quick; thorough: all 256 in the first 96 bytes, "
+        "45 values beyond), every header word "
         "x {0,1,n-1,n,n+1,2^24-1,2^31,2^32-1} and every bits value, constant "
         "fills (0x00, 0x01, 0xff) of every length up to the valid one + 8, "
         "JPEG frame-header height x width from {0,1,2,255,256,13378,20000,"
@@ -301,6 +302,8 @@ def edits_for(case, buf, tier):
     """all deviations of bound 1 (and 2 in thorough) for one base buffer"""
     codec = case["codec"]
     alpha = BYTE_ALPHA_Q if tier == "quick" else list(range(256))
+    wide = sorted(set(BYTE_ALPHA_Q) | set(range(0, 256, 16))
+                  | set(range(15, 256, 16)))
     for n in range(len(buf)):
         yield {"kind": "trunc", "len": n}
     for extra in ([0], [0, 0, 0, 0], [255] * 8):
@@ -309,7 +312,9 @@ def edits_for(case, buf, tier):
     if codec == "jpeg" and tier == "quick":
         step = 3        # quick: every third byte position of JPEG data
     for pos in range(0, len(buf), step):
-        for v in alpha:
+        # thorough: all 256 values in the first 96 bytes (headers, tables),
+        # a 45-value alphabet further in
+        for v in (alpha if (tier == "quick" or pos < 96) else wide):
             if buf[pos] != v:
                 yield {"kind": "bytes", "edits": [[pos, v]]}
         for v in ((buf[pos] + 1) % 256, (buf[pos] - 1) % 256,
